@@ -504,3 +504,22 @@ contract(LAN + "_Packet.decode#marker_tamper",
          bind={"data": "data"},
          raises={LAN + "ProtocolError": {}},
          ensures={"an_altered_start_marker_is_never_accepted": "False"})
+
+
+# ---- every connection starts with state of its own (C07: session state never survives a reconnect; C04: one buffer per connection) ----
+from pyvc.dsl import has_own
+
+contract(LAN + "_LanProtocol.__init__",
+         params={"self": "new:" + LAN + "_LanProtocol"},
+         modifies=["self.*"], raises={},
+         ensures={"own_queue": "has_own(self, '_queue') and self._queue.empty()",
+                  "not_connected_yet": "has_own(self, '_transport') and self._transport is None"})
+
+contract(V3 + ".__init__",
+         params={"self": "new:" + V3},
+         modifies=["self.*"], raises={},
+         ensures={"own_receive_state": "has_own(self, '_buffer') and has_own(self, '_queue') and len(self._buffer) == 0 and self._queue.empty()",
+                  "own_session_state": "has_own(self, '_packet_id') and has_own(self, '_local_key') and has_own(self, '_local_key_expiration')",
+                  "fresh_session": "self._packet_id == 0 and self._local_key is None and self._local_key_expiration is None",
+                  "not_connected_yet": "has_own(self, '_transport') and self._transport is None"},
+         notes="a new protocol object per connection (LAN._connect) starts unauthenticated, counter 0, with an empty buffer and queue that no other connection shares")
